@@ -29,7 +29,6 @@ import (
 	"fmt"
 	"io"
 	"net/http"
-	"os"
 	"strings"
 	"testing"
 	"testing/synctest"
@@ -770,9 +769,6 @@ func TestVerif_C16(t *testing.T) {
 			}
 		}, func(w *vx.W, cs c16Case) { c16RunCase(c, w, cs) })
 		// stuck writer next: it is the deepest part
-		if os.Getenv("C16_TMP_ONLY_BND") != "" {
-			return
-		}
 		scheds := []string{"7540", "", "rr", "rand"}
 		vx.Enumerate(c, "stuck-writer", opts, func(yield0 func(c16Case) bool) {
 			yield := c15Yield(c, yield0)
